@@ -15,7 +15,7 @@ use serde_json::json;
 pub static SPEC: PropSpec = PropSpec {
     id: "C05",
     level: "exploration",
-    rule: "programs: scope-torture functions over the names x, y, z built from 12 constructs (struct patterns in a let and in a match arm, use, let, let referring to the shadowed binding, tuple let, match arm with tuple pattern, match arms with enum patterns, closure with parameter called later, if/else blocks, loop body, nested block) nested up to depth 4, every binder bound to a unique constant and every use printed; plus callee-shadowing functions (locals - function-typed parameters, let-bound closures and function values, tuple-pattern / match-arm variables, closure parameters - named like the top-level functions f and g, used in call position and as values at every nesting; each function value adds its own constant); plus generated programs with a three-name identifier pool. negative: the same programs with one extra use of a name placed (a) after the construct that bound it ended, (b) before its let, (c) in the sibling arm / branch - each must be rejected with an unresolved-name diagnostic naming it. non-trivial: accepted programs whose uses resolved to >= 5 distinct binders; distinct by (construct nest path) hash",
+    rule: "programs: scope-torture functions over the names x, y, z built from 13 constructs (integer-literal match with a catch-all arm that binds or ignores the value, struct patterns in a let and in a match arm, use, let, let referring to the shadowed binding, tuple let, match arm with tuple pattern, match arms with enum patterns, closure with parameter called later, if/else blocks, loop body, nested block) nested up to depth 4, every binder bound to a unique constant and every use printed; plus callee-shadowing functions (locals - function-typed parameters, let-bound closures and function values, tuple-pattern / match-arm variables, closure parameters - named like the top-level functions f and g, used in call position and as values at every nesting; each function value adds its own constant); plus generated programs with a three-name identifier pool. negative: the same programs with one extra use of a name placed (a) after the construct that bound it ended, (b) before its let, (c) in the sibling arm / branch - each must be rejected with an unresolved-name diagnostic naming it. non-trivial: accepted programs whose uses resolved to >= 5 distinct binders; distinct by (construct nest path) hash",
     eval_counter: "uses_checked",
     assumptions: &["relative to refsem's environment-stack semantics and gomini"],
     crash_is_violation: false,
@@ -93,7 +93,7 @@ impl<'a> G<'a> {
         let mut sc: Vec<&'static str> = scope.to_vec();
         let mut out = Vec::new();
         for _ in 0..nstmts {
-            let k = if depth == 0 { self.rng.below(5) } else { self.rng.below(13) };
+            let k = if depth == 0 { self.rng.below(5) } else { self.rng.below(14) };
             // 4 (at depth 0) and 11, 12: struct patterns
             let k = if depth == 0 && k == 4 { 11 } else { k };
             self.path_hash = self.path_hash.wrapping_mul(1099511628211).wrapping_add(k as u64 + 17 * depth as u64);
@@ -257,6 +257,25 @@ impl<'a> G<'a> {
                     let body = self.inner_block(depth - 1, &inner, &mut out, &sc);
                     let lit = Expr::StructLit { name: "Sp".into(), ty: Ty::Struct("Sp".into(), vec![]), fields: vec![("p".into(), i(c)), ("q".into(), i(0))] };
                     out.push(discard(Expr::Match(Box::new(lit), vec![(Pat::Struct { name: "Sp".into(), fields: vec![("p".into(), Pat::Var(a.into())), ("q".into(), Pat::Wild)] }, body)])));
+                }
+                13 => {
+                    // integer-literal match with a catch-all arm (`_`, or a variable that binds the scrutinee's value):
+                    // the catch-all arm is the decision tree's default branch
+                    let m = *self.rng.pick_ref(&sc);
+                    let lit = self.rng.range(0, 3) as i128;
+                    let first = self.inner_block(depth - 1, &sc.clone(), &mut out, &sc);
+                    let (pat, inner) = if self.rng.bool() {
+                        (Pat::Wild, sc.clone())
+                    } else {
+                        let n = self.name();
+                        let mut inner = sc.clone();
+                        if !inner.contains(&n) {
+                            inner.push(n);
+                        }
+                        (Pat::Var(n.into()), inner)
+                    };
+                    let second = self.inner_block(depth - 1, &inner, &mut out, &sc);
+                    out.push(discard(Expr::Match(Box::new(var(m)), vec![(Pat::Int(IntTy::I32, lit, false), first), (pat, second)])));
                 }
                 _ => {
                     let b = self.inner_block(depth - 1, &sc.clone(), &mut out, &sc);
